@@ -10,7 +10,12 @@ PROPS = {
         ],
         go=[dict(pkg="c01", test="TestC01", timeout=dict(quick=600, thorough=3600))],
         exhaustive=dict(quick=False, thorough=False),
+        technique="TLA+ spec VHost.tla model-checked by TLC; routing tables replayed against real casket instances",
+        level_text="TLC checks exhaustively (K sites over 13 host patterns x 5 path prefixes, 14x8 requests) that the stepwise model of vhostTrie.Match equals the declarative most-specific-site rule; the routing table of every site set is then replayed against real casket instances (casket.Start, raw HTTP/1.1 requests, several declaration orders, address forms and Host spellings). Bounded model checking plus conformance replay: right for a pure routing function whose input space is combinatorial.",
+        level_note="Trusted: TLC, the bounded alphabets of VHost.tla (hosts of <=4 labels, 5 path prefixes), Go's net/http server for HTTP/1.1 framing. HTTP/2 (421) is not exercised.",
         assumptions=["HTTP/1.1 over loopback; the abstract host/path alphabets of VHost.tla",
                      "TLC shows the stepwise model of vhostTrie.Match equal to the declarative BestSite on the bounded alphabets; the replay compares the real server with BestSite"],
     ),
 }
+
+NOT_APPLICABLE = {}
